@@ -752,6 +752,45 @@ func ruleGuardSelfSigned(c *Ctx, r *Rep) {
 		}
 		return false, found
 	}
+	// the same fact established at every place the function is called from (an unexported helper that is only called, never
+	// handed on as a value): the test may sit one or two calls above the look-up
+	guardedLocal := guarded
+	var guardedAt func(b *ssa.BasicBlock, wantEmpty bool, depth int) (bool, string)
+	guardedAt = func(b *ssa.BasicBlock, wantEmpty bool, depth int) (bool, string) {
+		ok, found := guardedLocal(b, wantEmpty)
+		if ok || depth >= 2 || found != "no test of the Issuer field on the way" {
+			return ok, found
+		}
+		fn := b.Parent()
+		if fn.Object() == nil || fn.Object().Exported() || fn.Signature.Recv() != nil {
+			return ok, found
+		}
+		sites := 0
+		for _, caller := range c.Funcs {
+			for _, bb := range caller.Blocks {
+				for _, ins := range bb.Instrs {
+					for _, op := range ins.Operands(nil) {
+						if *op != ssa.Value(fn) {
+							continue
+						}
+						ci, isCall := ins.(ssa.CallInstruction)
+						if !isCall || ci.Common().Value != ssa.Value(fn) {
+							return false, found // the function is used as a value: its callers are not all known
+						}
+						if okSite, _ := guardedAt(bb, wantEmpty, depth+1); !okSite {
+							return false, found + " (nor at the call in " + c.FuncKey(caller) + ")"
+						}
+						sites++
+					}
+				}
+			}
+		}
+		if sites == 0 {
+			return false, found
+		}
+		return true, "so, at every call of " + c.FuncKey(fn)
+	}
+	guarded = func(b *ssa.BasicBlock, wantEmpty bool) (bool, string) { return guardedAt(b, wantEmpty, 0) }
 	n := 0
 	for _, fn := range c.Funcs {
 		var lookups []ssa.CallInstruction
@@ -2656,6 +2695,32 @@ func lenLowerBound(c *Ctx, s ssa.Value, b *ssa.BasicBlock) int64 {
 					// len(s) > len(t): at least one
 					if best < 1 {
 						best = 1
+					}
+				}
+			}
+			if !isK {
+				// the length tied to a value computed at run time (len(s) == 1+2*size): what that establishes is not a
+				// constant this lint can compare with; it then says nothing about s
+				for _, pair := range [][2]ssa.Value{{x.X, x.Y}, {x.Y, x.X}} {
+					lx, okx := lenOperand(pair[0])
+					if !okx || !same(lx) {
+						continue
+					}
+					if _, isConst := pair[1].(*ssa.Const); isConst {
+						continue
+					}
+					if _, otherLen := lenOperand(pair[1]); otherLen {
+						continue
+					}
+					o := x.Op
+					if pair[0] == x.Y {
+						o = map[token.Token]token.Token{token.LSS: token.GTR, token.GTR: token.LSS, token.LEQ: token.GEQ, token.GEQ: token.LEQ, token.EQL: token.EQL, token.NEQ: token.NEQ}[o]
+					}
+					if !truth {
+						o = map[token.Token]token.Token{token.LSS: token.GEQ, token.GEQ: token.LSS, token.GTR: token.LEQ, token.LEQ: token.GTR, token.EQL: token.NEQ, token.NEQ: token.EQL}[o]
+					}
+					if o == token.EQL || o == token.GEQ || o == token.GTR {
+						best = 1 << 40
 					}
 				}
 			}
